@@ -32,16 +32,18 @@ func refEnvName(name string) string {
 }
 
 type capSpec struct {
-	name     string
-	exportAs string
-	chunks   [][]byte // one per (variation, command) job of the producer, variation-major
-	nCmds    int
-	nVars    int // 0: no variations key
-	stderr   bool // every command also writes noise to stderr
-	allowFailMid bool // the producer allows failure and its first command exits 3 after printing
-	pos      int  // extra stages before the producer (DAG position)
-	consumers int
-	builtinConsumer bool // the consumers use shell builtins only (a variable of 128 KiB or more cannot be passed to exec)
+	name            string
+	exportAs        string
+	chunks          [][]byte // one per (variation, command) job of the producer, variation-major
+	nCmds           int
+	nVars           int  // 0: no variations key
+	stderr          bool // every command also writes noise to stderr
+	allowFailMid    bool // the producer allows failure and its first command exits 3 after printing
+	pos             int  // extra stages before the producer (DAG position)
+	consumers       int
+	format          string // output format of the runner ("" = raw): the capture does not depend on it
+	viaCat          bool   // the producer's commands emit their chunk with an external `cat` of a file instead of a builtin printf
+	builtinConsumer bool   // the consumers use shell builtins only (a variable of 128 KiB or more cannot be passed to exec)
 }
 
 func shellQuote(b []byte) string {
@@ -78,6 +80,12 @@ func capCase(col *Collector, s capSpec, tag string) {
 		var sb strings.Builder
 		sb.WriteString("case \"${V:-0}\" in ")
 		for v := 0; v < nv; v++ {
+			if s.viaCat {
+				f := filepath.Join(dir, fmt.Sprintf("chunk-%d-%d", v, j))
+				os.WriteFile(f, s.chunks[v*s.nCmds+j], 0644)
+				fmt.Fprintf(&sb, "%d) cat %s;; ", v, f)
+				continue
+			}
 			fmt.Fprintf(&sb, "%d) printf '%%s' %s;; ", v, shellQuote(s.chunks[v*s.nCmds+j]))
 		}
 		sb.WriteString("esac")
@@ -123,7 +131,7 @@ func capCase(col *Collector, s capSpec, tag string) {
 		stages = append(stages, &scheduler.Stage{Name: c.Name, Task: c, DependsOn: []string{"producer"}})
 	}
 	cs := Case{Tags: []string{tag}, NonTrivial: true}
-	cs.Replay = fmt.Sprintf("capture name=%q exportAs=%q cmds=%d vars=%d bytes=%d pos=%d consumers=%d stderr=%v allowfail=%v", s.name, s.exportAs, s.nCmds, s.nVars, len(s.expectedOutput()), s.pos, s.consumers, s.stderr, s.allowFailMid)
+	cs.Replay = fmt.Sprintf("capture name=%q exportAs=%q cmds=%d vars=%d bytes=%d pos=%d consumers=%d stderr=%v allowfail=%v format=%q viaCat=%v", s.name, s.exportAs, s.nCmds, s.nVars, len(s.expectedOutput()), s.pos, s.consumers, s.stderr, s.allowFailMid, s.format, s.viaCat)
 	g, err := scheduler.NewExecutionGraph(stages...)
 	if err != nil {
 		cs.Fail, cs.Sig = err.Error(), "c11-build"
@@ -132,6 +140,9 @@ func capCase(col *Collector, s capSpec, tag string) {
 	}
 	r, _ := runner.NewTaskRunner()
 	r.Stdout, r.Stderr = devNull{}, devNull{}
+	if s.format != "" {
+		r.OutputFormat = s.format
+	}
 	sd := scheduler.NewScheduler(r)
 	sd.VerifSetPause(time.Millisecond)
 	done := make(chan error, 1)
@@ -290,6 +301,22 @@ func runC11(col *Collector, tier string, seed int64) {
 		specs = append(specs, capSpec{name: "big", nCmds: 1, chunks: [][]byte{b}, consumers: 1})
 		tags = append(tags, "large")
 	}
+	// the capture is the same under every output format, also when the output carries colour codes, long lines and
+	// no final newline (what the formats treat specially), produced by shell builtins and by external commands
+	ansiPayloads := [][]byte{
+		[]byte("plain first line\n\x1b[32mgreen\x1b[0m second\nthird\n"),
+		[]byte("\x1b[1;31mred\x1b[0m"),
+		append(append([]byte("long \x1b[33m"), bytes.Repeat([]byte("y"), 6000)...), []byte("\x1b[0m tail\nnext\n")...),
+		[]byte("no colours\r\nbut CRLF\r\nand a tail"),
+	}
+	for _, f := range []string{"prefixed", "cockpit", "raw"} {
+		for pi, pl := range ansiPayloads {
+			for _, cat := range []bool{false, true} {
+				specs = append(specs, capSpec{name: fmt.Sprintf("fmt%d", pi), nCmds: 1, chunks: [][]byte{pl}, consumers: 1, format: f, viaCat: cat})
+				tags = append(tags, "format="+f)
+			}
+		}
+	}
 	// beyond the kernel's limit for one exec argument (128 KiB): handed over unabridged to commands made of builtins
 	for _, size := range []int{131072 - 11, 131072, 300000} {
 		b := make([]byte, size)
@@ -382,7 +409,7 @@ func sharedProducerParallelCase(col *Collector, lines int) {
 	out := filepath.Join(dir, "seen")
 	c := task.FromCommands(fmt.Sprintf("printenv EMIT_OUTPUT > %s", out))
 	c.Name = "consumer"
-	stages := []*scheduler.Stage{st("first", "f", "0"), st("left", "a", "0.04", "first"), st("right", "b", "0.04", "first"),
+	stages := []*scheduler.Stage{st("first", "f", "0"), st("left", "a", "0.03", "first"), st("right", "b-much-longer-lines-", "0.05", "first"),
 		{Name: "consumer", Task: c, DependsOn: []string{"left", "right"}}}
 	cs := Case{Tags: []string{"shared-producer", "shared-producer-parallel"}, NonTrivial: true,
 		Replay: fmt.Sprintf("shared producer: one execution, then two side by side writing %d lines each with pauses, then a consumer", lines)}
@@ -411,8 +438,8 @@ func sharedProducerParallelCase(col *Collector, lines int) {
 	seen, _ := os.ReadFile(out)
 	got := strings.TrimSuffix(string(seen), "\n") // printenv adds one newline
 	cs.Impl = clip([]byte(got))
-	if got != whole("a") && got != whole("b") {
-		cs.Fail, cs.Sig = fmt.Sprintf("consumer read %q: neither the complete output of the one execution (%q) nor of the other (%q)", got, whole("a"), whole("b")), "c11-handover"
+	if got != whole("a") && got != whole("b-much-longer-lines-") {
+		cs.Fail, cs.Sig = fmt.Sprintf("consumer read %q: neither the complete output of the one execution (%q) nor of the other (%q)", got, whole("a"), whole("b-much-longer-lines-")), "c11-handover"
 	}
 	col.Add(cs)
 }
